@@ -153,26 +153,41 @@ impl Prop for C18 {
             if (ir == 1 && rd == 0) || (tf != 0 && td == 0) {
                 continue;
             }
-            let (pol, bits) = combos[c % combos.len()];
+            // op kind, (policy, key size) and second flag triple are drawn from a mix of the row counter, NOT
+            // from the counter itself: a plain `c % 4` aliased with the 12-row host × URI block, so that `vonly`
+            // only ever met (host, URI) ∈ {(0,0),(1,1),(2,2)} (found by the model mutation analysis)
+            let mut h = (c as u64).wrapping_add(0x9E37_79B9_7F4A_7C15).wrapping_mul(0xBF58_476D_1CE4_E5B9);
+            h ^= h >> 29;
+            h = h.wrapping_mul(0x94D0_49BB_1331_11EB);
+            h ^= h >> 32;
+            let (pol, bits) = combos[(h >> 8) as usize % combos.len()];
+            let kind = h % 4;
+            let f = (h >> 20) % 8;
             c += 1;
             let ends = pol == "none" || pol == "unknown";
             let line = row(tu, sv, ct, rd, ir, td, tf, pol, bits, tm, ho, ur);
-            match c % 4 {
+            match kind {
                 // `validate_application_instance_cert` on its own
                 1 => push(out, line.replacen("val", "vonly", 1), ends),
-                // the store asked twice, flags changed in between (all 8 second flag triples cycle)
+                // the store asked twice, flags changed in between (all 8 second flag triples)
                 2 | 3 => {
-                    let f = (c / 4) % 8;
                     push(out, format!("{} {} {} {}", line.replacen("val", "val2", 1), f & 1, (f >> 1) & 1, (f >> 2) & 1), ends);
                 }
                 _ => push(out, line, ends),
             }
         }}}} }}}}}}
         for (tu, tf) in [(0u8, 1u8), (1, 0), (1, 1)] {
-            for (pol, bits) in &combos { for sv in 0..2u8 { for tm in 0..3u8 {
+            for (pol, bits) in &combos { for sv in 0..2u8 { for tm in 0..3u8 { for (ho, ur) in [(1u8, 1u8), (2, 1), (1, 2), (0, 0)] {
                 let ends = *pol == "none" || *pol == "unknown";
-                push(out, row(tu, sv, 1, 1, 0, 1, tf, pol, *bits, tm, 1, 1), ends);
-            }}}
+                let line = row(tu, sv, 1, 1, 0, 1, tf, pol, *bits, tm, ho, ur);
+                c += 1;
+                let h = (c as u64).wrapping_mul(0x9E37_79B9_7F4A_7C15) >> 33;
+                match h % 3 {
+                    1 => push(out, line.replacen("val", "vonly", 1), ends),
+                    2 => push(out, format!("{} {} {} {}", line.replacen("val", "val2", 1), (h >> 3) & 1, (h >> 4) & 1, (h >> 5) & 1), ends),
+                    _ => push(out, line, ends),
+                }
+            }}}}
         }
         for _ in 0..n {
             out.push("reset".to_string());
